@@ -71,6 +71,7 @@ struct BConn {                              // per-connection broker state
     uint32_t client_max_packet = 0;         // Maximum Packet Size announced in CONNECT (0: none)
     int inflight_to_client = 0;
     bool auth_in_progress = false;
+    int reauth_round = 0;
 };
 
 class Broker {
